@@ -1024,7 +1024,9 @@ impl SQLExpression for BinaryOperator {
     fn associativity(&self) -> Associativity {
         use BinaryOperator::*;
         match self {
-            Minus | Divide | Modulo => Associativity::Left,
+            // `*` shares its strength with `/` and `%`, so `a * (b % c)` must keep its
+            // parentheses; treating `*` as left-associative only ever adds a pair.
+            Minus | Divide | Modulo | Multiply => Associativity::Left,
             // Comparisons do not chain in SQL (`a = b = c` is an error in Postgres and
             // means `(a = b) = c` elsewhere; SQLite ranks `<` above `=`): always
             // parenthesize a comparison nested in a comparison.
